@@ -90,6 +90,16 @@ def step (s : S) (toks : List String) : S × String :=
     match req.mapM parsePairN, order.mapM (·.toNat?) with
     | some req, some order => let (k, r) := s.k.configureByBitLength req order; ({ s with k := k }, resStr k r false)
     | _, _ => (s, "bad-op")
+  | ["delete", o] =>
+    -- `DeleteWS` (only a space in use, like `RemoveWS`): it leaves the index and the selection and its plot files are erased
+    match o.toNat? with
+    | some o =>
+      if s.k.inUse.any (·.ord == o) then
+        let k := { s.k with inUse := s.k.inUse.filter (fun w => w.ord != o), index := s.k.index.filter (fun w => w.ord != o),
+                            files := s.k.files.filter (fun w => w.ord != o) }
+        ({ s with k := k }, "ok " ++ stateStr k)
+      else (s, "err:delete " ++ stateStr s.k)
+    | none => (s, "bad-op")
   | ["remove", o] =>
     match o.toNat? with
     | some o =>
